@@ -104,6 +104,57 @@ def has_decomp(rows):
     return None
 
 
+def has_decomp_fast(rows):
+    """Polynomial version of has_decomp (O(R^2 C)), for grids of any size.  A trunk rows r0..r1,
+    columns c0..c1 decomposes the grid iff (a) every row of the band r0..r1 is one unbroken run of
+    ones containing c0..c1 (its cells left and right of the trunk are then the west / east
+    branches), and (b) every one outside the band lies in a column of c0..c1 and the ones of that
+    column above (below) the band form one unbroken run ending at row r0-1 (starting at r1+1).
+    Given the band, the narrowest admissible column range is the span of the columns that have
+    ones outside the band.  Returns such a trunk or None."""
+    R, C = len(rows), len(rows[0])
+    m = [[ch == "1" for ch in row] for row in rows]
+    span = []                                   # per row: (first, last) if a single non-empty run
+    for row in m:
+        idx = [j for j, v in enumerate(row) if v]
+        span.append((idx[0], idx[-1]) if idx and idx[-1] - idx[0] + 1 == len(idx) else None)
+    above = [[0] * C for _ in range(R + 1)]     # above[i][j]: ones of column j in rows < i
+    for i in range(R):
+        for j in range(C):
+            above[i + 1][j] = above[i][j] + (1 if m[i][j] else 0)
+    up = [[0] * C for _ in range(R)]            # run of ones ending at (i, j), going up
+    down = [[0] * C for _ in range(R)]          # run of ones starting at (i, j), going down
+    for i in range(R):
+        for j in range(C):
+            if m[i][j]:
+                up[i][j] = 1 + (up[i - 1][j] if i else 0)
+    for i in range(R - 1, -1, -1):
+        for j in range(C):
+            if m[i][j]:
+                down[i][j] = 1 + (down[i + 1][j] if i + 1 < R else 0)
+    for r0 in range(R):
+        lo, hi = 0, C - 1
+        for r1 in range(r0, R):
+            if span[r1] is None:
+                break                           # every wider band contains this row too
+            lo, hi = max(lo, span[r1][0]), min(hi, span[r1][1])
+            if lo > hi:
+                break
+            ok, used = True, []
+            for j in range(C):
+                a = above[r0][j]
+                b = above[R][j] - above[r1 + 1][j]
+                if a == 0 and b == 0:
+                    continue
+                if not (lo <= j <= hi) or (a and up[r0 - 1][j] != a) or (b and down[r1 + 1][j] != b):
+                    ok = False
+                    break
+                used.append(j)
+            if ok:
+                return (r0, r1, used[0], used[-1]) if used else (r0, r1, lo, hi)
+    return None
+
+
 def check_instance(rows, rects):
     """rects = [trunk, branches...] as (rlo, rhi, clo, chi).  None if they are a single-trunk
     decomposition of the grid, else a description of the defect."""
@@ -236,6 +287,142 @@ def gen_matrix_case(rng):
         rows[k] = rows[k] + "1" if rng.random() < 0.5 or len(rows[k]) == 1 else rows[k][:-1]
         return {"kind": "m", "gen": "ragged", "rows": rows}
     return {"kind": "m", "gen": kind, "rows": to_rows(m)}
+
+
+# ---- large grids (size thresholds 9/10, 15/16/17, 31/32/33) ----
+SPECIAL = [9, 10, 15, 16, 17, 31, 32, 33]
+MAXSIDE = 40
+
+
+def _reach(rng, room):
+    """Length of the longest branch on a side: 0, short, or one of the threshold lengths that fit."""
+    fit = [s for s in SPECIAL if s <= room]
+    k = rng.random()
+    if k < 0.2 or room <= 0:
+        return 0
+    if k < 0.45 or not fit:
+        return rng.randrange(1, min(room, 8) + 1)
+    return rng.choice(fit)
+
+
+def _profile(rng, n, reach, style):
+    """Heights (0..reach) of the n positions along one side of the trunk; the maximum is reach."""
+    if reach == 0 or n == 0:
+        return [0] * n
+    if style == "comb":          # teeth of distinct heights separated by gaps
+        hs = [0] * n
+        pool = list(range(1, reach + 1))
+        rng.shuffle(pool)
+        step = rng.choice([1, 2, 2, 3])
+        k = rng.randrange(0, step)
+        while k < n and pool:
+            hs[k] = pool.pop()
+            k += step
+    elif style == "ramp":        # staircase 1, 2, 3, ... (up, down or both)
+        a = rng.randrange(0, n)
+        hs = [max(0, reach - abs(i - a) * rng.choice([1, 1, 2])) for i in range(n)]
+        if rng.random() < 0.5:
+            hs = [reach - min(reach, abs(i - a)) if i >= a else 0 for i in range(n)]
+    elif style == "blocks":      # runs of equal height, also wide ones
+        hs, i = [], 0
+        while i < n:
+            w = rng.choice([1, 1, 2, 3, 5, 9, 15, 16, 17, 33])
+            h = rng.choice([0, 0, reach, rng.randrange(0, reach + 1), max(0, reach - 1)])
+            hs += [h] * w
+            i += w
+        hs = hs[:n]
+    elif style == "single":
+        a = rng.randrange(0, n)
+        b = rng.randrange(a, n)
+        hs = [reach if a <= i <= b else 0 for i in range(n)]
+    else:                        # full
+        hs = [reach] * n
+    if max(hs) < reach:
+        hs[rng.randrange(n)] = reach
+    return hs
+
+
+def gen_large_matrix(rng):
+    """A single-trunk shape with sides up to 40: trunk + four side profiles, then possibly a perturbation
+    (near miss).  Returns (matrix, description)."""
+    nN = _reach(rng, 34)
+    nS = _reach(rng, MAXSIDE - 1 - nN)
+    nW = _reach(rng, 34)
+    nE = _reach(rng, MAXSIDE - 1 - nW)
+    th = rng.choice([1, 1, 2, 3, 5, 9, 16, 17, 33])
+    tw = rng.choice([1, 1, 2, 3, 5, 9, 16, 17, 33])
+    th = max(1, min(th, MAXSIDE - nN - nS))
+    tw = max(1, min(tw, MAXSIDE - nW - nE))
+    padr = [rng.choice([0, 0, 1]) if nN + nS + th < MAXSIDE - 1 else 0 for _ in range(2)]
+    padc = [rng.choice([0, 0, 1]) if nW + nE + tw < MAXSIDE - 1 else 0 for _ in range(2)]
+    R = padr[0] + nN + th + nS + padr[1]
+    C = padc[0] + nW + tw + nE + padc[1]
+    r0, c0 = padr[0] + nN, padc[0] + nW
+    r1, c1 = r0 + th - 1, c0 + tw - 1
+    style = rng.choice(["comb", "comb", "ramp", "blocks", "blocks", "single", "full", "mixed"])
+    st = lambda: rng.choice(["comb", "ramp", "blocks", "single", "full"]) if style == "mixed" else style
+    m = [[0] * C for _ in range(R)]
+    for i in range(r0, r1 + 1):
+        for j in range(c0, c1 + 1):
+            m[i][j] = 1
+    for j, h in zip(range(c0, c1 + 1), _profile(rng, tw, nN, st())):
+        for i in range(r0 - h, r0):
+            m[i][j] = 1
+    for j, h in zip(range(c0, c1 + 1), _profile(rng, tw, nS, st())):
+        for i in range(r1 + 1, r1 + 1 + h):
+            m[i][j] = 1
+    for i, h in zip(range(r0, r1 + 1), _profile(rng, th, nW, st())):
+        for j in range(c0 - h, c0):
+            m[i][j] = 1
+    for i, h in zip(range(r0, r1 + 1), _profile(rng, th, nE, st())):
+        for j in range(c1 + 1, c1 + 1 + h):
+            m[i][j] = 1
+    pert = rng.choice(["none", "none", "none", "hole", "tip", "corner", "widen", "notch", "flip", "far"])
+    ones = [(i, j) for i in range(R) for j in range(C) if m[i][j]]
+    zeros = [(i, j) for i in range(R) for j in range(C) if not m[i][j]]
+    outside = [(i, j) for (i, j) in ones if not (r0 <= i <= r1 and c0 <= j <= c1)]
+    if pert == "hole" and outside:           # a missing cell inside a branch: what lies beyond is cut off
+        i, j = rng.choice(outside)
+        m[i][j] = 0
+    elif pert == "tip" and outside:          # the outermost cell of a branch removed (16 -> 15, 33 -> 32 ...)
+        tips = [(i, j) for (i, j) in outside
+                if (j >= c0 and j <= c1 and (i < r0 and (i == 0 or not m[i - 1][j]) or i > r1 and (i == R - 1 or not m[i + 1][j])))
+                or (i >= r0 and i <= r1 and (j < c0 and (j == 0 or not m[i][j - 1]) or j > c1 and (j == C - 1 or not m[i][j + 1])))]
+        if tips:
+            i, j = rng.choice(tips)
+            m[i][j] = 0
+    elif pert == "corner":                   # a cell in a corner quadrant of the trunk
+        quad = [(i, j) for (i, j) in zeros if (i < r0 or i > r1) and (j < c0 or j > c1)]
+        near = [(i, j) for (i, j) in quad if i in (r0 - 1, r1 + 1) and j in (c0 - 1, c1 + 1)]
+        pick = near if near and rng.random() < 0.5 else quad
+        if pick:
+            i, j = rng.choice(pick)
+            m[i][j] = 1
+    elif pert == "widen":                    # a cell beside a branch (wider than the trunk / a second arm)
+        cand = [(i, j) for (i, j) in zeros
+                if any(0 <= i + di < R and 0 <= j + dj < C and m[i + di][j + dj] and not (r0 <= i + di <= r1 and c0 <= j + dj <= c1)
+                       for di, dj in ((0, 1), (0, -1), (1, 0), (-1, 0)))]
+        if cand:
+            i, j = rng.choice(cand)
+            m[i][j] = 1
+    elif pert == "notch":                    # a cell of the trunk removed
+        i, j = rng.randrange(r0, r1 + 1), rng.randrange(c0, c1 + 1)
+        m[i][j] = 0
+    elif pert == "flip":
+        for _ in range(rng.choice([1, 2, 3])):
+            i, j = rng.randrange(R), rng.randrange(C)
+            m[i][j] = 1 - m[i][j]
+    elif pert == "far" and zeros:
+        i, j = rng.choice(zeros)
+        m[i][j] = 1
+    return m, f"large/{style}/{pert}"
+
+
+def gen_large_case(rng):
+    m, tag = gen_large_matrix(rng)
+    if rng.random() < 0.5:       # the code treats rows and columns by two different routes (transposed table)
+        m = [list(col) for col in zip(*m)]
+    return {"kind": "m", "gen": tag, "rows": to_rows(m)}
 
 
 def exhaustive_cases(maxcells, maxside):
@@ -464,7 +651,9 @@ def oracle(case, obs):
             return None if obs["v"] is None else "a ragged matrix was accepted"
         if obs["v"] is None:
             return f"a well-formed matrix was refused: {obs.get('why')}"
-        t = has_decomp(rows)
+        t = has_decomp_fast(rows)
+        if len(rows) * len(rows[0]) <= 36 and (has_decomp(rows) is None) != (t is None):
+            raise RuntimeError("the two existence oracles disagree")      # a defect of the harness, not of the code
         if obs["is"] and t is None:
             return "is_strop is True but no single-trunk decomposition exists"
         if not obs["is"] and t is not None:
